@@ -52,3 +52,82 @@ pub mod clock {
         })
     }
 }
+
+/// Attribution switch for the compaction swap of adjacent Delete/Insert ops.
+///
+/// Off by default (pinned behaviour).  When switched on for the current
+/// thread, the indices carried by the two swapped ops (`Delete.new_index`,
+/// `Insert.old_index`) are recomputed after the swap.  A harness uses this
+/// only to decide whether a failing case is caused by the swap site.
+pub mod swap {
+    use crate::DiffOp;
+    use std::cell::Cell;
+
+    thread_local! {
+        static REPAIR: Cell<bool> = Cell::new(false);
+        static SWAPS: Cell<u64> = Cell::new(0);
+    }
+
+    /// Switches the repair on or off for the current thread.
+    pub fn set_repair(on: bool) {
+        REPAIR.with(|c| c.set(on));
+    }
+
+    /// Number of swaps performed on this thread since the last reset.
+    pub fn swaps() -> u64 {
+        SWAPS.with(|c| c.get())
+    }
+
+    /// Resets the swap counter.
+    pub fn reset_swaps() {
+        SWAPS.with(|c| c.set(0));
+    }
+
+    pub(crate) fn repair_swapped(ops: &mut [DiffOp], i: usize) {
+        SWAPS.with(|c| c.set(c.get() + 1));
+        if !REPAIR.with(|c| c.get()) {
+            return;
+        }
+        match (ops[i], ops[i + 1]) {
+            (
+                DiffOp::Delete {
+                    old_index, old_len, ..
+                },
+                DiffOp::Insert {
+                    new_index, new_len, ..
+                },
+            ) => {
+                ops[i] = DiffOp::Delete {
+                    old_index,
+                    old_len,
+                    new_index,
+                };
+                ops[i + 1] = DiffOp::Insert {
+                    old_index: old_index + old_len,
+                    new_index,
+                    new_len,
+                };
+            }
+            (
+                DiffOp::Insert {
+                    new_index, new_len, ..
+                },
+                DiffOp::Delete {
+                    old_index, old_len, ..
+                },
+            ) => {
+                ops[i] = DiffOp::Insert {
+                    old_index,
+                    new_index,
+                    new_len,
+                };
+                ops[i + 1] = DiffOp::Delete {
+                    old_index,
+                    old_len,
+                    new_index: new_index + new_len,
+                };
+            }
+            _ => {}
+        }
+    }
+}
